@@ -182,6 +182,24 @@ let xml_case keep toks =
     | _ -> failwith "xml token") (split ',' toks) in
   hexe (XmlModel.xml_minify (keep = "1") ts)
 
+
+(* ---- Js rename ---- *)
+let js_keywords : BinNums.coq_Z list list ref = ref []
+let alphabets alpha =
+  if alpha = "1" then (JsTables_gen.js_identStart_alpha, JsTables_gen.js_identContinue_alpha)
+  else (JsTables_gen.js_identStart_freq, JsTables_gen.js_identContinue_freq)
+let intlist s = if s = "" then [] else Stdlib.List.map (fun x -> nat_of_int (int_of_string x)) (split ',' s)
+let rename_case alpha scopes origs =
+  let (st, ct) = alphabets alpha in
+  let prog = if scopes = "" then [] else Stdlib.List.map (fun sc -> match split '|' sc with
+    | [p; r; d; u] -> { RenameModel.sparent = (if p = "-1" then None else Some (nat_of_int (int_of_string p)));
+                        sdeclared = intlist d; sundeclared = intlist u; srename = (r = "1") }
+    | _ -> failwith "scope") (split ';' scopes) in
+  let on = Array.of_list (if origs = "" then [] else Stdlib.List.map hexd (split ',' origs)) in
+  let orig v = let i = int_of_nat v in if i < Array.length on then on.(i) else [] in
+  let fin = RenameModel.rename_program st ct !js_keywords orig prog in
+  Stdlib.String.concat "," (Stdlib.List.init (Array.length on) (fun i -> hexe (fin (nat_of_int i))))
+
 let register (reg : string -> (string list -> string) -> unit) =
   reg "json_events" (function [k; evs] -> hexe (JsonModel.json_minify_events (k = "1") (parse_events evs))
                             | [k] -> hexe (JsonModel.json_minify_events (k = "1") []) | _ -> "BADARGS");
@@ -199,5 +217,8 @@ let register (reg : string -> (string list -> string) -> unit) =
   reg "xml_escattr" (function [v] -> hexe (XmlModel.escape_attr_val (hexd v)) | _ -> "BADARGS");
   reg "xml_esccdata" (function [v] -> let (e, u) = XmlModel.escape_cdata_val (hexd v) in (if u then "true " else "false ") ^ hexe e | _ -> "BADARGS");
   reg "ws_collapse" (function [v] -> hexe (Ws.collapse (hexd v)) | _ -> "BADARGS");
+  reg "rename_keywords" (function [k] -> js_keywords := Stdlib.List.map hexd (split ',' k); Printf.sprintf "ok %d" (Stdlib.List.length !js_keywords) | _ -> "BADARGS");
+  reg "get_name" (function [a; i] -> let (st, ct) = alphabets a in hexe (RenameModel.get_name st ct (z_of_int (int_of_string i))) | _ -> "BADARGS");
+  reg "rename" (function [a; sc; o] -> rename_case a sc o | [a; sc] -> rename_case a sc "" | _ -> "BADARGS");
   reg "tokbuf" (function [t; o] -> tokbuf t o | _ -> "BADARGS");
   reg "json_tree" (function [t] -> show_events (JsonSpec.events_of JsonModel.SValue (parse_tree t)) | _ -> "BADARGS")
